@@ -292,6 +292,21 @@ class Program:
             return f
         return self.suffix_match(sg)
 
+    def trait_default(self, callee):
+        """`<T as Trait>::m` with no impl of m for T: the trait's default body (generic over Self), and T"""
+        r = self._rcache.get(("default", callee), 0)
+        if r != 0:
+            return r
+        r = None
+        m = re.match(r"^<(.*) as ([A-Za-z_0-9:]+)(<.*>)?>::([A-Za-z_0-9]+)(::<.*>)?$", callee)
+        if m:
+            tr = last_seg(m.group(2)); me = m.group(4)
+            cands = [f for raw, f in self.funcs.items() if f.kind == "fn" and "<impl" not in raw and raw.split("::")[-2:] == [tr, me]]
+            if len(cands) == 1:
+                r = (cands[0], m.group(1))
+        self._rcache[("default", callee)] = r
+        return r
+
     def suffix_match(self, t):
         c = self._sfx.get(t, 0)
         if c != 0:
@@ -608,6 +623,9 @@ class Exec:
         if f is None or callee in self.models.force:
             h = self.models.lookup(callee)
             if h is None:
+                d = self.prog.trait_default(callee)
+                if d is not None:
+                    return self.run(d[0], args, selfty=d[1])
                 raise Unsupported("call " + callee)
             return h(self, callee, args)
         return self.run(f, args)
@@ -642,7 +660,7 @@ class Exec:
             raise Unsupported("closure body " + fv.ty)
         raise Unsupported("call of " + repr(fv))
 
-    def run(self, f, args):
+    def run(self, f, args, selfty=None):
         if f.kind == "constval":
             return self.const_value(f.src, f.ret)
         if self.hooks:
@@ -671,6 +689,8 @@ class Exec:
                     elif k == "call":
                         argv = [self.operand(a, L) for a in st[3]]
                         callee = st[2]
+                        if selfty is not None and "Self" in callee:
+                            callee = re.sub(r"\bSelf\b", selfty, callee)
                         if callee.startswith(("move _", "copy _")):
                             fv = self.operand(Operand(callee[:4], Place(int(callee[6:]), [])), L)
                             r = self.call_closure(fv, argv)
@@ -764,6 +784,8 @@ class Exec:
                 v = cont[key]
                 if isinstance(v, Ref):
                     cont, key = v.cont, v.key
+                elif getattr(v, "ref_like", False):
+                    pass        # &[u8] / &str / &[T] values are represented by the view object itself
                 else:
                     raise Unsupported("deref of " + repr(v))
             elif t == "field":
@@ -780,6 +802,9 @@ class Exec:
                 pass
             elif t == "index":
                 v = cont[key]
+                if hasattr(v, "index_sym"):
+                    cont, key = v.index_sym(self, L[pr[1]])
+                    continue
                 idx = self.concretize(L[pr[1]], "index")
                 items = v.items if isinstance(v, VecV) else v
                 if idx >= len(items):
@@ -949,6 +974,8 @@ class Exec:
                 return -a
             if rv[1] == "PtrMetadata":
                 t = a.get() if isinstance(a, Ref) else a
+                if hasattr(t, "len_sym"):
+                    return t.len_sym()
                 if isinstance(t, VecV):
                     return len(t.items)
                 if isinstance(t, str):
@@ -993,6 +1020,8 @@ class Exec:
             return ClosureV(m.group(1), caps)
         if k == "len":
             v = self.load(rv[1], L)
+            if hasattr(v, "len_sym"):
+                return v.len_sym()
             return len(v.items)
         raise Unsupported("rvalue " + k)
 
